@@ -70,6 +70,11 @@ class NP:
     float64 = float64
     float32 = float32
     int64 = int64
+    intp = int64            # index-sized integers: the width is not modelled (A3)
+    int32 = int64
+    int_ = int64
+    float_ = float64
+    double = float64
     bool_ = bool_
     newaxis = None
 
